@@ -71,7 +71,12 @@ def merge_runs(a, b):
             cands.append(('inlined minus proven by plain', [o for o in ob if o['ok'] or o['key'] not in ok_a], bad_b - ok_a))
         if not oa and ob:
             cands = cands[1:2]
-        name, obs, bad = min(cands, key=lambda c: len(c[2]))
+        # fewest violations; among equally small non-empty verdicts prefer one that names a construct of the program
+        # over one that only says "shape not recognised" (keys starting with shape/)
+        def rank(c):
+            shape = sum(1 for k in c[2] if ':shape/' in k or k.split(':', 1)[-1].startswith('shape/'))
+            return (len(c[2]) > 0, shape == len(c[2]) and len(c[2]) > 0, len(c[2]))
+        name, obs, bad = min(cands, key=rank)
         out += obs
         picked[fn] = name
     a.obligations = out
